@@ -12,11 +12,12 @@ VARIABLES l, st
 MOD == 65536
 
 Fresh(e, line) == [poisoned |-> FALSE, base |-> line, kind |-> e.kind, start |-> e.start, sn |-> MOD, roc |-> 0, c |-> 0,
-                   nhook |-> 0, lastref |-> 0, ncalls |-> 0, npos |-> 0, maxinv |-> 0, maxinv2 |-> 0, pzNext |-> e.start, pzRoc |-> 0]
+                   nhook |-> 0, lastref |-> 0, ncalls |-> 0, npos |-> 0, maxinv |-> 0, maxinv2 |-> 0, pzLast |-> (e.start + MOD - 1) % MOD, pzRoc |-> 0, pzBroken |-> FALSE]
 HookAt(s, k) == Trace[s.base + k]          \* k-th hook event of the current case (1-based)
 CallAt(s, k) == Trace[s.base + s.nhook + k]   \* the call that claimed the k-th issue (calls are listed in issue order)
 RocAfter(s, k) == IF k = 0 THEN 0 ELSE HookAt(s, k).roc
 
+Wraps(vs) == Cardinality({k \in 2..Len(vs) : vs[k] < vs[k - 1]})      \* a number smaller than the one before it: the counter passed zero
 Reason(e, s) ==
   CASE e.ev = "next" ->
          IF s.sn = MOD THEN   \* first value
@@ -44,10 +45,10 @@ Reason(e, s) ==
          ELSE IF e.lo > 0 /\ ~(CallAt(s, e.lo).ev = "call" /\ CallAt(s, e.lo).ref = e.lo /\ CallAt(s, e.lo).ret < e.inv) THEN "harness_read_lo"
          ELSE IF e.hi < s.nhook /\ ~(CallAt(s, e.hi + 1).ev = "call" /\ CallAt(s, e.hi + 1).ref = e.hi + 1 /\ CallAt(s, e.hi + 1).inv > e.ret) THEN "harness_read_hi"
          ELSE IF e.roc < RocAfter(s, e.lo) \/ e.roc > RocAfter(s, e.hi) THEN "rollover_read_not_linearizable" ELSE ""
-    [] e.ev = "pz" ->       \* numbers drawn by a packetizer: consecutive, and RollOverCount = number of times 0 was handed out
-         IF e.res # "ok" THEN "panic"
-         ELSE IF \E k \in 1..Len(e.seqs) : e.seqs[k] # (s.pzNext + k - 1) % MOD THEN "packetizer_numbers_not_consecutive"
-         ELSE IF e.roc # s.pzRoc + Cardinality({k \in 1..Len(e.seqs) : e.seqs[k] = 0}) THEN "rollover_count_via_packetizer"
+    [] e.ev = "pz" ->       \* numbers drawn by a packetizer (an instrument here: which numbers it puts on packets is C06's business):
+                            \* RollOverCount must have advanced by the number of wraps the observed number stream shows
+         IF e.res # "ok" \/ e.nil_packets # 0 \/ s.pzBroken THEN ""       \* nothing can be observed through a broken instrument (for the rest of the case)
+         ELSE IF e.roc # s.pzRoc + Wraps(<<s.pzLast>> \o e.seqs) THEN "rollover_count_via_packetizer"
          ELSE ""
     [] e.ev = "unavailable" -> ""      \* the verification constructor for a preset roll-over count does not fit the implementation
     [] e.ev = "end" ->
@@ -59,7 +60,9 @@ Step(e, s) ==
   CASE e.ev = "next" -> [s EXCEPT !.sn = e.v, !.roc = e.roc, !.c = e.c, !.nhook = s.nhook + 1]
     [] e.ev = "call" -> [s EXCEPT !.lastref = e.ref, !.ncalls = s.ncalls + 1, !.maxinv = IF e.inv > s.maxinv THEN e.inv ELSE s.maxinv]
     [] e.ev = "random_many" -> IF e.not_below_2_15 # 0 \/ e.max_first >= 32768 THEN "random_start_not_below_2_15" ELSE ""
-    [] e.ev = "pz" -> [s EXCEPT !.pzNext = (s.pzNext + Len(e.seqs)) % MOD, !.pzRoc = e.roc]
+    [] e.ev = "pz" -> IF e.res # "ok" \/ e.nil_packets # 0 THEN [s EXCEPT !.pzBroken = TRUE]
+                      ELSE IF e.seqs = <<>> THEN [s EXCEPT !.pzRoc = e.roc]
+                      ELSE [s EXCEPT !.pzLast = e.seqs[Len(e.seqs)], !.pzRoc = e.roc]
     [] e.ev = "lin" -> [s EXCEPT !.npos = s.npos + 1, !.maxinv2 = IF e.inv > s.maxinv2 THEN e.inv ELSE s.maxinv2]
     [] OTHER -> s
 
